@@ -1005,7 +1005,12 @@ class VectorQuantize(Module):
 
     def get_output_from_indices(self, indices):
         codes = self.get_codes_from_indices(indices)
-        return self.project_out(codes)
+
+        if self.channel_last:
+            return self.project_out(codes)
+
+        codes = rearrange(codes, 'b d ... -> b ... d')
+        return rearrange(self.project_out(codes), 'b ... d -> b d ...')
 
     def update_in_place_optimizer(self):
         if not exists(self.in_place_codebook_optimizer):
